@@ -14,6 +14,8 @@ def showCalls (cs : List (Bool × Method)) : String :=
 
 def onOff (s : String) : Bool := s == "1"
 
+def pr (r : GoResult Bytes) : String := (showRes r).replace " " ":"
+
 def stepLine (s : State) (ws : List String) : State × String :=
   match ws with
   | ["new"] => (State.init, "ok")
@@ -38,6 +40,28 @@ def stepLine (s : State) (ws : List String) : State × String :=
   | ["rfail", k, b] => match k.toNat? with
     | some k => (step s (.rFail k (onOff b)), "ok")
     | none => (s, "bad-op")
+  | "rmode" :: k :: m :: _ => match k.toNat? with
+    -- slow-to-answer = answers; slow-to-fail / hang = fails: only the outcome matters to the model
+    | some k =>
+      if m == "ok" || m == "slowok" then (step s (.rFail k false), "ok")
+      else if m == "fail" || m == "slowfail" || m == "hang" then (step s (.rFail k true), "ok")
+      else (s, "bad-op")
+    | none => (s, "bad-op")
+  | ["conc", spec] =>
+    -- concurrent reads: each is the pure function of the state and ITS OWN request
+    let one (it : String) : Option String :=
+      match it.splitOn ":" with
+      | ["s", k, "-"] => k.toNat?.map fun k => pr (dualReadSeg s k none) ++ "/" ++ pr (s.pri.readSeg k none)
+      | ["s", k, a, b] => match k.toNat?, a.toInt?, b.toInt? with
+        | some k, some a, some b => some (pr (dualReadSeg s k (some ⟨a, b⟩)) ++ "/" ++ pr (s.pri.readSeg k (some ⟨a, b⟩)))
+        | _, _, _ => none
+      | ["i", k] => k.toNat?.map fun k => pr (dualReadIdx s k) ++ "/" ++ pr (s.pri.readIdx k)
+      | _ => none
+    match (spec.splitOn ",").mapM one with
+    | some parts => (s, "conc " ++ joinWith " " parts)
+    | none => (s, "bad-op")
+  | ["slow"] => (s, "skip")
+  | ["scenario"] => (s, "skip")
   | ["pfail", k, b] => match k.toNat? with
     | some k => (step s (.pFail k (onOff b)), "ok")
     | none => (s, "bad-op")
